@@ -191,6 +191,39 @@ def check(ctx):
         ctx.arg_origin("4.query-owner", an, 0, "param:1", depth=0)
         ctx.arg_origin("4.query-exclude", an, 2, "param:4", depth=0)
 
+    # -- 5. replacing big coins by dust: a big coin is dropped only while the remaining dust value pays for it --
+    with ctx.clause("5.dust-replaces-only-what-it-covers"):
+        u = F.unit(f"{CQ}::skip_big_coins_up_to_amount")
+        sk = [c for x in u.bodies for c in x.calls if c.bb in x.live and c.name == "skip_while"]
+        ctx.expect_sites("5.skip_while", sk, exactly=1, what="skip_while over the selected big coins")
+        # idiom-tolerant: the subtraction may be checked_sub / saturating_sub / wrapping_sub or a `-` after a comparison
+        subs = [(x, c.where(), c.args[0], c.args[1]) for x in u.bodies for c in x.calls if c.bb in x.live and c.name in ("checked_sub", "saturating_sub", "wrapping_sub", "overflowing_sub")]
+        subs += [(x, f"{x.file}:{s.get('line')}", s["rv"]["a"], s["rv"]["b"]) for x in u.bodies for bb, j, s in x.stmts()
+                 if bb in x.live and s["k"] == "assign" and s["rv"]["k"] == "bin" and s["rv"].get("op") in ("Sub", "SubWithOverflow", "SubUnchecked")]
+        ctx.expect_sites("5.budget-subtraction", [w for _, w, _, _ in subs], at_least=1, what="remaining dust value minus the coin amount")
+        if subs:
+            x, where, lhs, rhs = subs[0]
+            a0 = ctx.resolved_atoms(u, x, lhs, 1)
+            ctx.add("5.budget-starts-at-dust-total", "PROV", atom_match(a0, ctx.pspec(u, 2)),
+                    "the budget compared with a big coin starts at the value of the selected dust", sites=[where], site_key="b0", witness={"atoms": sorted(map(str, a0))[:12]})
+            ctx.add("5.budget-compared-with-coin-amount", "PROV", atom_match(Origins(x, 1).atoms(rhs), f"call:{KEY}::amount"), "what is subtracted is the big coin's amount", sites=[where], site_key="b1")
+        # the budget is a captured mutable variable that is written back (it shrinks per dropped coin)
+        wb = []
+        for y in u.bodies:
+            if y is u.root:
+                continue
+            for bb, j, s in y.stmts():
+                if bb in y.live and s["k"] == "assign" and s["pl"]["l"] == 1 and "*" in (s["pl"].get("p") or []):
+                    wb.append((y, s))
+        ctx.add("5.budget-shrinks-per-dropped-coin", "PROV", bool(wb),
+                "the predicate writes the reduced budget back into the captured variable: the dust pays for each dropped big coin once "
+                "(with a constant budget every big coin not larger than the dust total is dropped and the selection can fall below the target)",
+                sites=[f"{y.defq} line {s.get('line')}" for y, s in wb] or [c.where() for c in sk], site_key="wb")
+        sb = ctx.body_with(f"{CQ}::select_coins_to_spend", f"{CQ}::skip_big_coins_up_to_amount")
+        scall = ctx.one_call(sb, f"{CQ}::skip_big_coins_up_to_amount")
+        ctx.arg_origin("5.budget-is-selected-dust-total", scall, 1, f"call:{CQ}::dust_coins", depth=3)
+        ctx.arg_origin("5.applied-to-selected-big-coins", scall, 0, f"call:{CQ}::big_coins", depth=3)
+
 
 def _cmp_with_const(b, sw, value):
     """does the switch test a comparison one of whose operands is the integer constant `value`?"""
